@@ -281,6 +281,13 @@ def r2_holdout(ctx, fq, plate_balanced):
                     lenv = {**{k: v for k, v in env.items()}, **lenv}
                     pop_e = inline(pop, {k: v for k, v in lenv.items() if k != V})
                     size_e = inline(size, {k: v for k, v in lenv.items() if k != V})
+                    # the number of rows of a plate view: plate.size == count of its selection vector (ScreenSubset: C14)
+                    stxt = U(size_e)
+                    for form in (f"np.flatnonzero({pv}.selection_vector).size", f"len(np.flatnonzero({pv}.selection_vector))", f"np.count_nonzero({pv}.selection_vector)",
+                                 f"{pv}.selection_vector.sum()", f"np.sum({pv}.selection_vector)", f"np.arange({S}.size)[{pv}.selection_vector].size",
+                                 f"len(np.arange({S}.size)[{pv}.selection_vector])"):
+                        stxt = stxt.replace(form, f"{pv}.size")
+                    size_e = ast.parse(stxt, mode="eval").body
                     pop_ok = N.key(pop_e) == N.key(ast.parse(f"np.arange({S}.size)[{pv}.selection_vector]", mode="eval").body)
                     size_ok = N.key(size_e) in (N.key(ast.parse(f"math.ceil({pv}.size * fraction)", mode="eval").body),
                                                 N.key(ast.parse(f"int(math.ceil({pv}.size * fraction))", mode="eval").body),
